@@ -152,6 +152,19 @@ def run(F, R, tier):
                     ok = ok and pol
                     det += "; jump taken iff is_falsey %s" % pol
             R.ob("truthiness-routing", op, ok, det, "src/vm/interpreter.rs:%s" % a["line"])
+        # the value a short-circuit operator yields is the operand itself: the conditional jumps and Jump leave the stack
+        # contents alone (JumpIfFalse pops exactly its condition; JumpIfFalseNoPop and Jump change nothing)
+        for op, allowed in (("JumpIfFalseNoPop", {"top"}), ("JumpIfFalse", {"pop"}), ("Jump", set())):
+            a = arms.get(op)
+            if not R.anchor("VM::run arm " + op, a):
+                continue
+            stack_calls = sorted({c["m"] for c in H.walk(a["body"]) if c.get("k") == "mcall" and (c.get("callee") or "").startswith("vm::interpreter::VM::")
+                                  and c["m"] in ("push", "pop", "top", "peek", "last_popped")})
+            writes = [H.render(x)[:60] for x in H.walk(a["body"]) if x.get("k") in ("assign", "assignop") and
+                      ("self.stack" in H.render(x["l"]) or H.render(x["l"]) == "self.sp")]
+            n_pop = sum(1 for c in H.walk(a["body"]) if c.get("k") == "mcall" and c["m"] == "pop" and (c.get("callee") or "").startswith("vm::interpreter::VM::"))
+            R.ob("jump-keeps-operands", op, set(stack_calls) <= allowed and not writes and n_pop <= 1,
+                 "stack accesses %s, direct writes %s" % (stack_calls, writes), "src/vm/interpreter.rs:%s" % a["line"])
         R.count("truthiness opcodes routed", 3)
     # no other decision on the Bool payload of an Object in the VM / main
     n = 0
